@@ -170,6 +170,29 @@ def handle (op : String) (args : List PyVal) : Option (List PyVal) :=
         | .error c => .list [.str "err", .str c]
         | .ok hr => encodeTable hr)]
     else none
+  | "code_session", [.list cols, .list rows, .bool lazy, .list objs, .list evs] => do
+    -- a session: calls interleaved with the caller editing, in place, the key-column lists it handed to
+    -- `group_by`; whether `__init__` stored a copy is read from the working tree (`columnsCopied`)
+    let cols ← cols.mapM decodeStr
+    let rows ← rows.mapM (decodeRow cols.length)
+    let objs ← objs.mapM fun o => match o with
+      | .list ks => ks.mapM decodeStr
+      | _ => none
+    let evs ← evs.mapM fun e => match e with
+      | .list [.str "call", .int g, op] => do
+        let op ← decodeOp op
+        if 0 ≤ g ∧ g.toNat < objs.length then pure (GroupByCode.Ev.call g.toNat op) else none
+      | .list [.str "edit", .int g, .list ks] => do
+        let ks ← ks.mapM decodeStr
+        if 0 ≤ g ∧ g.toNat < objs.length then pure (GroupByCode.Ev.edit g.toNat ks) else none
+      | _ => none
+    let fr : Frame := { columns := cols, rows := rows }
+    if (GroupByCode.callsOf evs).all (fun c => opSupportedC fr c.2) then
+      pure [.list ((GroupByCode.runSessionF GroupByCode.source Gen.GroupByCode.columnsCopied fr lazy objs evs).map fun r =>
+        match r with
+        | .error c => .list [.str "err", .str c]
+        | .ok hr => encodeTable hr)]
+    else none
   | "code_program", [] =>
     pure [.str (reprStr GroupByCode.source)]
   | _, _ => none
